@@ -277,8 +277,10 @@ class Session:
             elif e[0] == "connreq":
                 evs.append({"e": "connreq"})
             elif e[0] == "call":
+                self._open_calls = getattr(self, "_open_calls", 0) + 1
                 evs.append({"e": "call", "op": "send", "cr": "cached"})
             elif e[0] == "ret":
+                self._open_calls = getattr(self, "_open_calls", 0) - 1
                 evs.append(self._ret_of("send", e[1]))
             elif e[0] == "tx":
                 r = rx[rxi] if rxi < len(rx) else {"kind": "garbage"}
@@ -483,6 +485,29 @@ class Session:
         self.loop.fire_next_timer()
         return self._collect({"e": "timer"})
 
+    def hang(self):
+        """The active call can never complete: abandon it and record that as its outcome."""
+        t, name = self.task, self.call_name
+        t.cancel()
+        try:
+            self.loop.run_idle()
+        except Exception:  # noqa: BLE001
+            pass
+        self.task = None
+        evs = [{"e": "timer"}]
+        if str(name).startswith("dev:"):
+            if getattr(self, "_open_calls", 0) > 0:
+                evs.append({"e": "ret", "op": "send", "n": 0, "stored": self._stored(), "r": "other:NeverReturns", "msg": "the call can never complete"})
+                self._open_calls = 0
+            evs.append({"e": "devret", "op": name[4:], "raised": True, "online": bool(self.obj.online), "frames": self.op_frames, "exc": "NeverReturns"})
+        else:
+            evs.append({"e": "ret", "op": name, "n": 0, "stored": self._stored(), "r": "other:NeverReturns", "msg": "the call can never complete"})
+        self._ev_mark = len(self.net.events)
+        self._rx_mark = len(self.dev.rx)
+        self.trace += evs
+        self.steps.append([norm_event(e) for e in evs]) if hasattr(self, "steps") else None
+        return evs
+
     def cancel(self):
         self.task.cancel()
         self.loop.run_idle()
@@ -539,7 +564,9 @@ class Session:
             elif self.loop.pending_timers():
                 evs = self.timer()
             else:
-                raise RuntimeError("call is stuck: nothing to deliver, no timer")
+                # nothing in flight, no timer pending, yet the call has not returned: it never will (e.g. a lock that is never released).
+                # That is an outcome like any other (C09: an exchange ends in frames, an error or a timeout): recorded, the task is abandoned
+                evs = self.hang()
             if until is not None and until(evs):
                 break
         self.next_reply_hs = self.next_reply_data = None
